@@ -219,6 +219,8 @@ func c02Alphabet(c *vlib.Ctx) (cfgs []CfgLit, intentsFor func(oc int) []ref.Inte
 		{[]string{"https://*.a.example"}, []string{"https://x.a.example", "https://y.x.a.example", "https://a.example", "https://xa.example"}},
 		{[]string{"https://a.example:*"}, []string{"https://a.example", "https://a.example:8443", "https://x.a.example:8443", "http://a.example:8443"}},
 		{[]string{"https://a.example", "https://*.b.example:*"}, []string{"https://a.example", "https://x.b.example:9", "https://b.example", "https://a.example.evil"}},
+		{[]string{"https://a.example", "*"}, []string{"https://a.example", "http://b.example:8080"}},
+		{[]string{"http://a.example:*", "https://a.example", "http://[::1]:8080"}, []string{"http://a.example:81", "https://a.example", "http://[::1]:8080", "https://a.example:81", "http://[::1]"}},
 	}
 	methodAlpha := []string{"*", "PUT", "put", "PATCH", "patch", "GET", "QUERY", "OPTIONS"}
 	hdrAlpha := []string{"*", "Authorization", "AUTHORIZATION", "X-Foo", "x-bar"}
@@ -255,7 +257,7 @@ func c02Alphabet(c *vlib.Ctx) (cfgs []CfgLit, intentsFor func(oc int) []ref.Inte
 			for pna := 0; pna < 3; pna++ {
 				for _, x := range mhs {
 					for _, st := range statuses {
-						cfgs = append(cfgs, CfgLit{Origins: o.patterns, Credentialed: cred, Methods: x.m, RequestHeaders: x.h, Status: st, PNA: pna == 1, PNANoCORS: pna == 2, TolPSL: true})
+						cfgs = append(cfgs, CfgLit{Origins: o.patterns, Credentialed: cred, Methods: x.m, RequestHeaders: x.h, Status: st, PNA: pna == 1, PNANoCORS: pna == 2, TolPSL: true, TolInsecure: true})
 						ocOf = append(ocOf, oc)
 					}
 				}
